@@ -244,6 +244,10 @@ def k2_shapes(tier):
     # to an unaligned length (needs a segment size > 1: a chain of 8 with reorg limit 2)
     out.append({'initial': [cbA, cbB, cbC, cbA, cbB, cbC, cbA, cbB], 'deviations': 0, 'early': False, 'reorg_limit': 2,
                 'script': [('query', 0, 'header_proof', (0, 6)), ('reorg', 2, [cbC, cbA, cbB])]})
+    # a transaction proof whose tx-hash read starts just before the undo (while the reorg range is being worked out) and
+    # may be delivered (postponed) after the reorg handler cleared the caches, before the next notification
+    out.append({'initial': INITIAL, 'deviations': 1, 'early': False, 'hold': True, 'reorg_limit': 4,
+                'script': [(('when', 'daemon:block_hex_hashes', 2), ('query', 0, 'id_from_pos_merkle', (5, 1))), ('reorg', 1, [cbB, payAB])]})
     if tier == 'thorough':
         for s in list(out):
             if s['deviations']:
@@ -275,7 +279,7 @@ KERNELS = [
            encodes=['electrumx/lib/merkle.py:MerkleCache._extend_to', '_level_for', 'truncate', 'branch_and_root',
                     'electrumx/server/db.py:DB.backup_fs', 'header_branch_and_root', 'populate_header_merkle_cache',
                     'electrumx/server/session.py:SessionManager._handle_chain_reorgs', 'tx_hashes_at_blockheight'],
-           bounds='3 stories (x2 deviation budgets in thorough) on a 6-block start with reorg limit 4; interleaving '
+           bounds='5 stories (x2 deviation budgets in thorough) on a 6..8-block start with reorg limit 4; interleaving '
                   'as in C07',
            outside='as C07', assumptions=['as C07'], witnesses=1, split_depth=1),
 ]
